@@ -125,13 +125,13 @@ def judge_seq(ctx, outs, what, atomic=True, exact=True, filt=None):
     return stats
 
 
-def run_conc(ctx, drv, n, seed, profile="", par=4, shards=4, watchdog="60s"):
+def run_conc(ctx, drv, n, seed, profile="", par=4, shards=4, watchdog="60s", impl=False):
     outs = []
 
     def one(sh):
         out = os.path.join(ctx.scratch, "conc-%s-%d" % (profile or "all", sh))
         rc, o = ctx.drv(drv, ["conc", "-seed", seed * 100 + sh, "-n", n, "-out", out, "-par", par,
-                              "-profile", profile, "-watchdog", watchdog], timeout=3000)
+                              "-profile", profile, "-watchdog", watchdog] + (["-impl"] if impl else []), timeout=3000)
         summ = None
         sp = os.path.join(out, "summary.json")
         if rc == 0 and os.path.exists(sp):
@@ -189,16 +189,64 @@ def judge_conc(ctx, outs, what, exact, filt=None, report_watchdog=False, report_
                                   spec["workers"], json.dumps(spec["cfg"])), match={"kind": "trace"})
         if summ["traces"] and len(ctx.samples) < 3:
             ctx.sample(dict(scenario=summ["specs"][0], result=summ["results"][0]))
+    judge_txn_impl(ctx, jobs, stats)
     return stats
+
+
+def judge_txn_impl(ctx, jobs, stats):
+    """Implementation level: the API + oracle/commit hook stream of every concurrent scenario replayed on
+    Txn.tla (asynchronous watermarks) by TraceTxn.tla. Rejections are drift, never a verdict."""
+    jobs = [(out, summ) for out, summ in jobs if summ.get("impl_offsets")]
+    if not jobs:
+        return
+
+    def cfg_of(summ):
+        return tlc.fill("TraceTxn.cfg.tmpl", CLIENTS=", ".join(map(str, range(1, summ["workers"] + 1))),
+                        KEYS=", ".join(map(str, range(1, summ["keys"] + 1))))
+
+    def one(job):
+        out, summ = job
+        cfg = cfg_of(summ)
+        return ctx.validate_batch(os.path.join(out, "impl.ndjson"), dict(offsets=summ["impl_offsets"]), max_rejections=2,
+                                  validator=lambda pth, to: tlc.validate_trace("TraceTxn", cfg, pth, timeout=to))
+
+    for (out, summ), (acc, rej) in zip(jobs, ctx.par(one, jobs, workers=8)):
+        stats["txn_impl_accepted"] = stats.get("txn_impl_accepted", 0) + acc
+        stats["txn_impl_events"] = stats.get("txn_impl_events", 0) + summ.get("impl_events", 0)
+        for rj in rej:
+            sid = summ["specs"][summ["impl_specs"][rj["index"]]]["id"]
+            ctx.drift.append("Txn.tla does not explain the oracle/commit hook stream of scenario %s at event %d: %s "
+                             "(implementation-level only; the contract judges separately)" % (sid, rj["rel"], json.dumps(rj["event"])))
+        # self-test of the binding (once per check): a corrupted scalar of a commit decision must be rejected
+        if not ctx.cov.get("txn_binding_selftest") and not rej:
+            ip = os.path.join(out, "impl.ndjson")
+            lines = open(ip).read().splitlines()
+            idx = [k for k, ln in enumerate(lines) if '"ev":"committs"' in ln]
+            if idx:
+                k = idx[len(idx) // 2]
+                e = json.loads(lines[k])
+                e["nc"] += 1
+                lines[k] = json.dumps(e)
+                cp = os.path.join(out, "impl-corrupt.ndjson")
+                open(cp, "w").write("\n".join(lines[:k + 40]) + "\n")
+                rr = tlc.validate_trace("TraceTxn", cfg_of(summ), cp)
+                if rr["accepted"] or rr["highwater"] != k + 1:
+                    raise Machinery("binding self-test failed: TraceTxn did not reject a corrupted committedTxns length "
+                                    "at event %d (highwater %s)" % (k + 1, rr["highwater"]))
+                ctx.cov["txn_binding_selftest"] = "corrupted len(committedTxns) in event %d rejected at that event" % (k + 1)
 
 
 def std_cov(ctx, stats, rule, extra=None):
     ctx.traces_impl += stats["accepted"]
     ctx.cov.update(dict(evaluations=stats["traces"], distinct_nontrivial=stats["nontrivial"], rule=rule,
                         events=stats["events"]))
-    ctx.cov.update({k: v for k, v in stats.items() if k not in ("traces", "nontrivial", "events", "accepted")})
+    ctx.cov.update({k: v for k, v in stats.items() if k not in ("traces", "nontrivial", "events", "accepted",
+                                                                "txn_impl_accepted", "txn_impl_events")})
     if "impl_accepted" in stats:
         ctx.cov["implementation_level_traces_accepted_by_Store_tla"] = stats["impl_accepted"]
+    if "txn_impl_accepted" in stats:
+        ctx.cov["implementation_level_streams_accepted_by_Txn_tla"] = stats.pop("txn_impl_accepted")
+        ctx.cov["implementation_level_stream_events"] = stats.pop("txn_impl_events")
     if extra:
         ctx.cov.update(extra)
 
@@ -241,7 +289,7 @@ def c05(ctx):
     models.run_family(ctx, "txn")
     models.run_family(ctx, "store")
     n = 12 if ctx.quick else 80
-    outs = run_conc(ctx, drv, n, ctx.seed) + run_conc(ctx, drv, n // 2, ctx.seed + 7, profile="reader")
+    outs = run_conc(ctx, drv, n, ctx.seed, impl=True) + run_conc(ctx, drv, n // 2, ctx.seed + 7, profile="reader", impl=True)
     stats = judge_conc(ctx, outs, "c05", exact=False, filt=_pos_is_read)
     # long-lived readers held open across commits, every flusher stage and compaction (steered)
     n2, ops2 = (48, 40) if ctx.quick else (320, 80)
@@ -262,8 +310,8 @@ def c06(ctx):
     drv = ctx.build()
     models.run_family(ctx, "txn")
     n = 12 if ctx.quick else 80
-    outs = run_conc(ctx, drv, n, ctx.seed + 1) + run_conc(ctx, drv, n // 2, ctx.seed + 8, profile="skew") + \
-        run_conc(ctx, drv, n // 2, ctx.seed + 9, profile="rmw")
+    outs = run_conc(ctx, drv, n, ctx.seed + 1, impl=True) + run_conc(ctx, drv, n // 2, ctx.seed + 8, profile="skew", impl=True) + \
+        run_conc(ctx, drv, n // 2, ctx.seed + 9, profile="rmw", impl=True)
     stats = judge_conc(ctx, outs, "c06", exact=False)
     std_cov(ctx, stats, "concurrent scenarios incl. write-skew pairs and read-modify-write counters; acceptance by "
                         "AbsTxn (ExactConflict=FALSE: refusals are free) is strict serializability with the commit "
@@ -275,8 +323,8 @@ def c07(ctx):
     drv = ctx.build()
     models.run_family(ctx, "txn")
     n = 12 if ctx.quick else 80
-    outs = run_conc(ctx, drv, n, ctx.seed + 2) + run_conc(ctx, drv, n // 2, ctx.seed + 10, profile="rmw") + \
-        run_conc(ctx, drv, n // 2, ctx.seed + 11, profile="skew")
+    outs = run_conc(ctx, drv, n, ctx.seed + 2, impl=True) + run_conc(ctx, drv, n // 2, ctx.seed + 10, profile="rmw", impl=True) + \
+        run_conc(ctx, drv, n // 2, ctx.seed + 11, profile="skew", impl=True)
     # fingerprint width: disjoint read/write sets of N keys each must not conflict (N*N >> 2^32)
     def bday(i):
         out = os.path.join(ctx.scratch, "bday-%d" % i)
